@@ -136,6 +136,7 @@ theorem normal_eq_scale (L : Mat) (r p : List Rat) (mu c : Rat) (m n : Nat) (hn 
     (h : mulVec (addLagrange (gram L n) (tRhs L n r) 0).1 (p ++ [mu]) = (addLagrange (gram L n) (tRhs L n r) 0).2) :
     mulVec (addLagrange (gram L n) (tRhs L n (vscale c r)) 0).1 (vscale c p ++ [c * mu])
       = (addLagrange (gram L n) (tRhs L n (vscale c r)) 0).2 := by
+  have _ := hs
   exact normal_eq_scale' L r p mu c n hn hp h
 
 /-- uniqueness when the interfaces link all cells: if every row is `±(e_a − e_b)` and the graph whose edges are the rows
@@ -145,30 +146,48 @@ theorem connected_kernel (n : Nat) (rows : List (Nat × Nat × Int)) (p : List R
     (hconn : ∀ i j, i < n → j < n → Relation.ReflTransGen (fun x y => ∃ r ∈ rows, (r.1 = x ∧ r.2.1 = y) ∨ (r.1 = y ∧ r.2.1 = x)) i j)
     (hker : ∀ r ∈ rows, dot (pressureRow n r.1 r.2.1 r.2.2) p = 0) (hsum : p.sum = 0) :
     ∀ v ∈ p, v = 0 := by
-  sorry
+  exact connected_kernel' n rows p hp hrows hconn hker hsum
 
 /-! ### re-insertion of the cells without internal interface -/
 
 theorem reinsertZeros_length (n : Nat) (removed : List Nat) (sol : List Rat)
     (hr : ∀ i ∈ removed, i < n) (hnd : removed.Nodup) (hlen : sol.length + removed.length = n) :
     (reinsertZeros n removed sol).length = n := by
-  sorry
+  exact reinsertZeros_length' n removed sol hr hnd hlen
 
 /-- cells touching no internal interface get exactly zero … -/
 theorem reinsertZeros_removed (n : Nat) (removed : List Nat) (sol : List Rat)
     (hr : ∀ i ∈ removed, i < n) (hnd : removed.Nodup) (hlen : sol.length + removed.length = n) (i : Nat) (hi : i ∈ removed) :
     (reinsertZeros n removed sol).getD i 1 = 0 := by
-  sorry
+  exact reinsertZeros_removed' n removed sol hr hnd hlen i hi
 
 /-- … and the other cells keep their solved value, in order -/
 theorem reinsertZeros_kept (n : Nat) (removed : List Nat) (sol : List Rat)
     (hr : ∀ i ∈ removed, i < n) (hnd : removed.Nodup) (hlen : sol.length + removed.length = n) :
     ((List.zip (List.range n) (reinsertZeros n removed sol)).filter fun p => !(removed.contains p.1)).map (·.2) = sol := by
-  sorry
+  exact reinsertZeros_kept' n removed sol hr hnd hlen
 
 /-! non-vacuity -/
 example : (curvParts [⟨0, 0⟩, ⟨1, 1⟩, ⟨2, 0⟩]).num = [1, 1, 1] := by decide +kernel
 example : reinsertZeros 5 [1, 3] [7, 8, 9] = [7, 0, 8, 0, 9] := by decide +kernel
 example : pressureRow 4 2 0 (-1) = [1, 0, -1, 0] := by decide +kernel
+/- hypotheses of `normal_eq_sound` / `normal_eq_scale` (with a non-zero multiplier) and of `const_grad_sound` -/
+example : Shaped [[1, 1]] [2] 1 2 := by simp [Shaped]
+example : mulVec (addLagrange (gram [[1, 1]] 2) (tRhs [[1, 1]] 2 [2]) 0).1 ([1, -1] ++ [2])
+    = (addLagrange (gram [[1, 1]] 2) (tRhs [[1, 1]] 2 [2]) 0).2 := by decide +kernel
+example : grad [[1, 1]] [2] [1, -1] = List.replicate 2 (-2) := by decide +kernel
+example : mulVec (addLagrange (gram [[1, -1, 0], [0, 1, -1]] 3) (tRhs [[1, -1, 0], [0, 1, -1]] 3 [3, 3]) 0).1 ([3, 0, -3] ++ [0])
+    = (addLagrange (gram [[1, -1, 0], [0, 1, -1]] 3) (tRhs [[1, -1, 0], [0, 1, -1]] 3 [3, 3]) 0).2 := by decide +kernel
+/- hypotheses of `connected_kernel`: two cells joined by one interface -/
+example : ∀ i j, i < 2 → j < 2 → Relation.ReflTransGen
+    (fun x y => ∃ r ∈ [((0 : Nat), (1 : Nat), (1 : Int))], (r.1 = x ∧ r.2.1 = y) ∨ (r.1 = y ∧ r.2.1 = x)) i j := by
+  intro i j hi hj
+  have : (i = 0 ∨ i = 1) ∧ (j = 0 ∨ j = 1) := by omega
+  rcases this with ⟨rfl | rfl, rfl | rfl⟩
+  · exact .refl
+  · exact .single ⟨(0, 1, 1), by simp, Or.inl ⟨rfl, rfl⟩⟩
+  · exact .single ⟨(0, 1, 1), by simp, Or.inr ⟨rfl, rfl⟩⟩
+  · exact .refl
+example : ∀ r ∈ [((0 : Nat), (1 : Nat), (1 : Int))], dot (pressureRow 2 r.1 r.2.1 r.2.2) [0, 0] = 0 := by decide +kernel
 
 end Forsys
